@@ -512,7 +512,12 @@ impl<'c, 's> Run<'c, 's> {
                 Call::Req { kind: 8, dest, a: [0; 3], uuid: [0; 16], entries }
             }
             2 => {
-                let l = 31 + self.ch.choose(10) as usize;
+                // "more than 30 message types": just over, and far over (lengths that wrap a byte)
+                let l = match self.ch.choose(3) {
+                    0 => 31 + self.ch.choose(10) as usize,
+                    1 => [255usize, 256, 257, 286, 287, 300, 512, 542][self.ch.choose(8) as usize],
+                    _ => 31 + self.ch.choose(600) as usize,
+                };
                 let list = self.rand_fill(l);
                 Call::Resp { kind: 4, dest, cc: self.ch.choose(6) as u8, a: [0; 3], uuid: [0; 16], list }
             }
